@@ -48,6 +48,9 @@ inductive Prim where
   | getitem (idx : List PySlice)                                          -- `input[idx]`
   | arrayToBlocks (blk str : List Int)                                    -- `block.array_to_blocks(input, blk, str)`
   | interpolate (pts : List Int) (coord : List (List Rat)) (width param : Rat)  -- `interp.interpolate(input, coord, …)`
+  | gridding (oshape pts : List Int) (coord : List (List Rat)) (width param : Rat)  -- `interp.gridding(input, coord, oshape, …)`
+  | blocksToArray (oshape blk str : List Int)                             -- `block.blocks_to_array(input, oshape, blk, str)`
+  | setitemZeros (oshape : List Int) (idx : List PySlice)                 -- `out = np.zeros(oshape); out[idx] = input`
 
 section prim
 variable {α : Type} [Add α] [Mul α] [Zero α] [One α] (ofRat : Rat → α)
@@ -78,6 +81,11 @@ def primSem (ish : List Int) : Prim → Option (Sem α)
   | .interpolate pts coord w p =>
       (interpEntries false ish pts coord w p).map fun (lead, gs, ps, E) =>
         ⟨lead ++ pts, ish, updToEnt ofRat ps gs E⟩
+  | .gridding osh pts coord w p =>
+      (interpEntries true osh pts coord w p).map fun (lead, gs, ps, E) =>
+        ⟨osh, lead ++ pts, updToEnt ofRat gs ps E⟩
+  | .blocksToArray osh blk str => b2aSem ofRat osh blk str
+  | .setitemZeros osh idx => (sliceSem (α := α) osh idx).map fun s => ⟨s.ish, s.osh, swapE s.E⟩
 
 /-- `self.ishape` of the classes whose `_apply` is a single primitive call on `input` -/
 def ishOf : Leaf α → Option (List Int)
@@ -93,6 +101,9 @@ def ishOf : Leaf α → Option (List Int)
   | .slice ish _ => some ish
   | .a2b ish _ _ => some ish
   | .interp ish _ _ _ _ => some ish
+  | .gridding osh pts coord w p => (interpEntries true osh pts coord w p).map fun t => t.1 ++ pts
+  | .b2a osh blk str => (blockShapes osh blk str).map fun t => t.1 ++ C09.zip3With Gen.b2aNumBlks t.2.1 blk str ++ blk
+  | .embed osh idx => (sliceSem (α := α) osh idx).map fun s => s.osh
   | _ => none
 
 end prim
